@@ -1939,20 +1939,18 @@ impl AsNode for XmlElement {
 impl AsExpandedName for XmlElement {
     fn as_expanded_name(&self) -> error::Result<Option<ExpandedName>> {
         let local_name = self.element.borrow().local_name().to_string();
-        // TODO: prefix is None
-        let prefix = self
-            .element
-            .borrow()
-            .prefix()
-            .unwrap_or("xmlns")
-            .to_string();
+        let prefix = self.element.borrow().prefix().map(|v| v.to_string());
         let namespaces = self.in_scope_namespace()?;
-        let ns = if let Some(ns) = namespaces.iter().find(|v| v.node_name() == prefix) {
+        // An unprefixed element is in the default namespace, if one is in scope.
+        let ns = if let Some(ns) = namespaces
+            .iter()
+            .find(|v| v.namespace.borrow().prefix() == prefix.as_deref())
+        {
             ns.node_value()?
         } else {
             None
         };
-        Ok(Some((local_name, Some(prefix), ns)))
+        Ok(Some((local_name, prefix, ns)))
     }
 }
 
